@@ -434,6 +434,11 @@ Walk:
 							return current, false
 						}
 
+						// An infix catch-all never captures an empty leading segment.
+						if path[startPath] == slashDelim {
+							break Walk
+						}
+
 						charsMatched += len(path[charsMatched:])
 
 						break Walk
